@@ -1,0 +1,37 @@
+package batchers
+
+import (
+	"bufio"
+	"compress/gzip"
+	"io"
+	"os"
+	"rare/pkg/logger"
+)
+
+// canRewind tells whether the file can be read from its first byte again after a failed
+// gzip probe (a FIFO, /dev/stdin or a process substitution can not)
+func canRewind(f *os.File) bool {
+	_, err := f.Seek(0, io.SeekCurrent)
+	return err == nil
+}
+
+// openUnseekableGunzip decides between gzip and plain by peeking at the gzip magic number through
+// a buffered reader, which then serves the data: nothing the probe looked at is lost
+func openUnseekableGunzip(filename string, baseFile *os.File) io.ReadCloser {
+	buffered := bufio.NewReader(baseFile)
+	var err error = gzip.ErrHeader
+	if magic, _ := buffered.Peek(2); len(magic) == 2 && magic[0] == 0x1f && magic[1] == 0x8b {
+		var zfile *gzip.Reader
+		if zfile, err = gzip.NewReader(buffered); err == nil {
+			return zfile
+		}
+	}
+	logger.Printf("Gunzip error for file %s: %v; Reading as plain file", filename, err)
+	return bufferedFile{buffered, baseFile}
+}
+
+// bufferedFile reads through the buffer that was used to probe the file and closes the file
+type bufferedFile struct {
+	*bufio.Reader
+	io.Closer
+}
